@@ -98,6 +98,35 @@ CHECKS = {
   note="'Example() is matched by the pattern' for arbitrary patterns is outside the claim (reggen and regexp are host code, concrete "
        "inputs only); paths decided by the uninterpreted predicate are not replayed natively (counted in the evidence).",
   ref="DESIGN.md §4 C18"),
+
+ "C01": dict(
+  text="Bounded symbolic model checking of the whole real pipeline (scanner, loader, compiler, checker) through JSchema.Check(): schema "
+       "texts from rule templates whose scalar holes are symbolic, verdict compared with an oracle over exact integers: min/max with "
+       "absent/true/false exclusivity for all signed decimals V, B with <=2 integer and <=2/3 fraction digits (value == bound, last "
+       "fraction digit, trailing zeros, negatives, -0); min+max pairs; precision (1-3 fraction digits x P); minLength/maxLength over "
+       "strings of 0-3/4 pieces (plain or escaped) x N; minItems/maxItems (1-3 items x N); `or` of two integer rule sets; a type "
+       "reference through `type` and through a shortcut with the rule on the type; inline enum with two entries. Accepted iff the "
+       "oracle accepts; min/max rejections carry the constraint-violation code.",
+  note="Outside the claim: regex rule on symbolic subjects, email/uri/date/datetime/uuid formats, const/nullable, exponents in rule "
+       "values, non-ASCII strings, more digits than stated.",
+  ref="DESIGN.md §4 C01"),
+ "C03": dict(
+  text="Bounded symbolic model checking through Check(), Example() and GetAST(): 8 structural JSON skeletons (scalar, one/two-member "
+       "objects, arrays, nesting, empty containers) whose keys and string values are made of 0-1/2 symbolic pieces (plain byte incl. "
+       "structural characters, simple escape, \\u00XX with symbolic hex, concrete 2/3/4-byte UTF-8, a surrogate pair), numbers with "
+       "sign/fraction, true/false/null, and symbolic whitespace gaps: the text is accepted, Example() decodes (reference decoder, itself "
+       "validated natively against encoding/json on 637k short strings + 100k documents) to the same keys, order and literals, and the "
+       "AST is the same tree with decoded keys and string values.",
+  note="Duplicate keys and exponent numbers are excluded by the property; deeper/wider documents than the skeletons are outside.",
+  ref="DESIGN.md §4 C03"),
+ "C15": dict(
+  text="Bounded symbolic model checking of Len(): 12 complete jschema root templates (object, array, string, number, literal, inline and "
+       "multi-line annotated scalars incl. notes ending in '#', @ref, @a | @b, annotated members) with symbolic scalars: Len(S) <= "
+       "len(S), S[:Len(S)] has the same verdict/code and AST, Len is idempotent on the prefix; and Len(S + newline(LF/CR/CRLF) + "
+       "optional indentation + c + rest) == Len(S) for every first byte c that is not a blank, '/' or '#' and every rest of up to 1/2 "
+       "arbitrary bytes. The same boundary property for enum rules (5 templates) and JSON documents with the trailing-characters option.",
+  note="The repository's test corpus is not replayed here; follow-up texts starting with blanks only are outside.",
+  ref="DESIGN.md §4 C15"),
 }
 
 NOT_APPLICABLE = {
